@@ -155,8 +155,18 @@ Example C19_port_bits_example :
 Proof. eexists. eexists. split; vm_compute; reflexivity. Qed.
 
 (* ------------------------------------------------------------------ connector chains *)
-(* for an acyclic connector table the resolution of any name terminates (no fuel exhaustion):
-   NameError, or a platform pin reached by following the chain; with all references present, a pin *)
+(* for EVERY connector table (cyclic ones included) the resolution of any name terminates — the fuel
+   cm_fuel of the model is never exhausted — and ends at a platform pin reached by following the chain
+   of connector references, or with NameError (dangling reference, or a connector pin reached twice) *)
+Theorem C19_map_names_terminates cm n :
+  resolve_name (cm_fuel cm) cm n <> MLoop /\
+  ((exists p, resolve_name (cm_fuel cm) cm n = MOk p /\ chain cm n p) \/
+   resolve_name (cm_fuel cm) cm n = MMissing \/ resolve_name (cm_fuel cm) cm n = MCycle).
+Proof. split; [exact (resolve_terminates cm n)|exact (map_names_total cm n)]. Qed.
+Print Assumptions C19_map_names_terminates.
+
+(* for an acyclic connector table the cycle error is impossible: NameError only for a dangling
+   reference; with all references present the resolution ends at a platform pin *)
 Theorem C19_map_names_chain cm n : acyclic cm ->
   (resolve_name (cm_fuel cm) cm n = MMissing \/ exists p, resolve_name (cm_fuel cm) cm n = MOk p /\ chain cm n p)
   /\ (closed cm -> present cm n -> exists p, resolve_name (cm_fuel cm) cm n = MOk p /\ chain cm n p).
@@ -184,12 +194,13 @@ Proof.
   - intros Hx; vm_compute in Hx; discriminate Hx.
 Qed.
 
-(* S4: without the acyclicity hypothesis the statement is false of the faithful model — for connectors
-   that refer to each other the `while ":" in name` loop of Pins.map_names never terminates *)
-Theorem C19_map_names_chain_refuted :
-  exists cm n, forall fuel, resolve_name fuel cm n = MLoop.
-Proof. exists cyc_cm, (CPin 0 1). intros fuel. exact (proj1 (cyclic_loops fuel)). Qed.
-Print Assumptions C19_map_names_chain_refuted.
+(* S4 (fixed in bf3797f): connectors that refer to each other are refused with NameError *)
+Example C19_map_names_cyclic_example :
+  resolve_name (cm_fuel cyc_cm) cyc_cm (CPin 0 1) = MCycle /\
+  map_names (cm_fuel cyc_cm) cyc_cm [CPin 0 1] = LCycle /\
+  snd (request [(0, Leaf 0 [] (mkLeaf (PPins [CPin 0 1]) Do false None))] cyc_cm init_state (mkReq 0 0 DDash XNone))
+    = Error EName.
+Proof. repeat split. Qed.
 
 (* ------------------------------------------------------------------ constraints *)
 (* For the state reached by any history, with `ports` = the I/O ports of all granted requests:
